@@ -26,3 +26,36 @@ Example C01_word_example_wf :
            Sgl true [92; 39]; Param false [49]; Lit [48; 92]].
 Proof. exact wf_example. Qed.
 Print Assumptions C01_word_example_wf.
+
+(* ------------------------------------------------------------------ level S (statements)
+   MiniSh fragment: statement lists, simple commands (words of level W), `;` / newline
+   separators, `&`, `!`, `&&` `||` `|`, { } blocks, ( ) subshells (with the `( (` and `) )`
+   spacing rules), if/then/elif/else/fi, while/until do done; LangBash.
+   Model: Syntax/MiniPrinter.v = transliteration of the separator state machine of
+   printer.go under SingleLine (wantSpace / wantNewline / wroteSemi / firstLine),
+   Syntax/MiniParser.v = fuelled recursive-descent parser following parser.go.
+   Proved for ALL well-formed trees (no size bound, mutual induction):
+   print then parse gives the tree back.
+   PARTIAL: option sets with SingleLine only (Indent n / BinaryNextLine do not change the
+   output there); the default multi-line layout, Minify, redirections, assignments,
+   for/case/functions, comments and heredocs are not in this theorem (search only).
+   wf_file excludes an odd trailing backslash in a word (impossible before a delimiter),
+   so norm_file is the identity on well-formed trees; it is kept in the statement because
+   it is the statement the fragment grows into. *)
+From Verif Require Import Syntax.MiniAst Syntax.MiniPrinter Syntax.MiniParser Proofs.MiniRoundtrip.
+
+Theorem C01_stmt_roundtrip_partial : forall o t, opts_single o -> wf_file t ->
+  parse_file (print_file o t) = Some (norm_file t).
+Proof. exact stmt_roundtrip. Qed.
+Print Assumptions C01_stmt_roundtrip_partial.
+
+(* non-vacuity: one file holding  ( (a) ) ; if a; then b; elif c; then d; else e; fi ;
+   a && b || c | d & ; and a negated pipeline of nested blocks and a while loop whose body
+   is ( (y) | z )  is well-formed, and the model prints / parses it as expected *)
+Example C01_stmt_example_wf : wf_file ex_file.
+Proof. exact ex_file_wf. Qed.
+Example C01_stmt_example_prints : sl_print_file ex_file = ex_text.
+Proof. exact ex_file_prints. Qed.
+Example C01_stmt_example_parses : parse_file ex_text = Some ex_file.
+Proof. exact ex_file_parses. Qed.
+Print Assumptions C01_stmt_example_wf.
